@@ -127,8 +127,8 @@ def _bool_helper(fn):
     return body[:-2], iff.test, iff.body[:-1]
 
 
-def normalise_statements(idx, module, stmts, cls=None, depth=3):
-    """the statement list in normal form (deep copies; the Index is not modified)"""
+def normalise_statements(idx, module, stmts, cls=None, depth=3, keep=()):
+    """the statement list in normal form (deep copies; the Index is not modified); methods named in `keep` are not opened"""
     counter = [0]
 
     def methods_named(name):
@@ -180,7 +180,7 @@ def normalise_statements(idx, module, stmts, cls=None, depth=3):
                     continue
             # (3) straight-line method called as a statement
             if isinstance(st, ast.Expr) and isinstance(st.value, ast.Call) and isinstance(st.value.func, ast.Attribute) and depth > 0:
-                ms = methods_named(st.value.func.attr)
+                ms = methods_named(st.value.func.attr) if st.value.func.attr not in keep else []
                 if len(ms) == 1:
                     fn = ms[0].node
                     body = strip_docstring(fn.body)
